@@ -48,17 +48,28 @@ TreeWellFormed ==
 (* file, as with files written with "the longest value on this plate"), and the numeric  *)
 (* columns PRIMTARGET / NPOLY / NCHILD / Z hold values that fit int16 / float32 on a     *)
 (* narrow file and need int32 / float64 on a wide one.  StdTree4 in (plate, MJD) order:  *)
-(* file 4 narrow, file 2 narrow, file 3 wide, file 1 wide with the longest word.         *)
+(* file 4 narrow, file 3 narrow, file 2 wide, file 1 wide with the longest word.         *)
 F(plate, mjd, nfib, npix, c0, c1, photo, wide, word) ==
   [plate |-> plate, mjd |-> mjd, nfib |-> nfib, npix |-> npix, c0 |-> c0, c1 |-> c1, photo |-> photo,
    wide |-> wide, word |-> word]
-StdTree4 == << F(7000, 56500, 5, 4, 4096, 1, FALSE, TRUE, "SPECTROPHOTO_STD_"), F(266, 51630, 640, 7, 3840, 2, FALSE, FALSE, "QSO"),
-               F(3586, 55181, 4, 7, 3968, 3, FALSE, TRUE, "GALAXY_"), F(266, 51602, 640, 5, 3712, 1, FALSE, FALSE, "") >>
-StdTree6 == << F(4000, 55300, 9, 8, 3600, 1, TRUE, TRUE, "GALAXY_"),  F(266, 51630, 6, 7, 3840, 2, TRUE, TRUE, "SKY"),
+StdTree4 == << F(7000, 55181, 5, 4, 4096, 1, FALSE, TRUE, "SPECTROPHOTO_STD_"), F(3586, 56500, 4, 7, 3840, 2, FALSE, TRUE, "GALAXY_"),
+               F(3586, 55181, 4, 7, 3968, 3, FALSE, FALSE, "QSO"), F(266, 51602, 640, 5, 3712, 1, FALSE, FALSE, "") >>
+StdTree6 == << F(4000, 55181, 9, 8, 3600, 1, TRUE, TRUE, "GALAXY_"),  F(266, 55300, 6, 7, 3840, 2, TRUE, TRUE, "SKY"),
                F(9999, 57001, 7, 1, 3700, 5, TRUE, FALSE, "REDDEN_STD_"),  F(3586, 55181, 8, 7, 3968, 3, TRUE, FALSE, "Q"),
                F(266, 51602, 6, 5, 3712, 1, TRUE, FALSE, ""),   F(1234, 52000, 12, 6, 3650, 4, TRUE, TRUE, "SPECTROPHOTO_STD_"),
-               F(7000, 56500, 5, 4, 4096, 1, TRUE, FALSE, "STAR_"),  F(3586, 55200, 8, 3, 3900, 2, TRUE, TRUE, "STARFORMING_BROADLINE_"),
-               F(9999, 57000, 7, 8, 3800, 3, TRUE, TRUE, "AGN") >>
+               F(7000, 54000, 5, 4, 4096, 1, TRUE, FALSE, "STAR_"),  F(3586, 55200, 8, 3, 3900, 2, TRUE, TRUE, "STARFORMING_BROADLINE_"),
+               F(9999, 51602, 7, 8, 3800, 3, TRUE, TRUE, "AGN") >>
+(* The order relation between plate numbers and MJDs is a dimension of the tree: both      *)
+(* standard trees contain a pair of plates whose MJDs DEcrease while the plate numbers     *)
+(* increase, two different plates observed on the same MJD, and a plate whose MJDs         *)
+(* straddle (StdTree6: interleave with) another plate's, so that grouping / re-ordering by *)
+(* plate-then-MJD, by MJD-then-plate, by plate alone or by MJD alone all differ.           *)
+OrderRelationsCovered ==
+  /\ \E f, g \in Files : Tree[f].plate < Tree[g].plate /\ Tree[f].mjd > Tree[g].mjd
+  /\ \E f, g \in Files : Tree[f].plate # Tree[g].plate /\ Tree[f].mjd = Tree[g].mjd
+  /\ \E f, g, h \in Files : /\ Tree[f].plate = Tree[g].plate /\ Tree[h].plate # Tree[f].plate
+                             /\ Tree[f].mjd <= Tree[h].mjd /\ Tree[h].mjd < Tree[g].mjd
+  /\ \E f, g \in Files : Tree[f].plate = Tree[g].plate /\ Tree[f].mjd # Tree[g].mjd
 
 (* ------------------------- synthetic file contents ------------------------- *)
 Code(f, fib, h, x) == f * 1000000 + fib * 1000 + h * 100 + x
